@@ -159,7 +159,36 @@ def run(run: common.Run):
                     dr2 = 0  # a one-pixel kernel has zero reference variance: R2 = 1 - x/0 is float noise, not a result
                 # gain-offset solves a 2x2 system by float32 differences of sums, gain-blk-offset normalises with a float32 std and
                 # percentile: their budget for factors that are no powers of two is that of C01's second-order quantities (1e-3)
-                if rel > (2e-4 if case['model'] == 'gain' else 1e-3) or dr2 > 5e-2:
+                budget = 2e-4 if case['model'] == 'gain' else 1e-3
+                if rel > budget and dr2 <= 5e-2 and m.any():
+                    # A factor that is no power of two re-rounds every pixel of the scaled image in its last bit.  Where the fit is
+                    # ill-conditioned (a corner window of a few pixels, a nearly flat window) that alone moves the result by more
+                    # than the budget.  Measure it: the base fusion again with the last bit of the scaled image's pixels disturbed
+                    # at random, twice; a pixel fails only if it is off by more than the budget plus twenty times what that
+                    # disturbance does to it.
+                    noise = np.zeros(b.corr.shape, 'float64')
+                    stable = np.ones(b.corr.shape[1:], bool)
+                    for rep in range(2):
+                        prng = np.random.default_rng([run.seed, i, rep])
+                        ds_ = 1 + prng.choice([-1.0, 1.0], size=s.shape) * 2.0 ** -23
+                        dr_ = 1 + prng.choice([-1.0, 1.0], size=r.shape) * 2.0 ** -23
+                        ps_, pr_ = (s * ds_, r) if tag[0] == 's' else (s, r * dr_)
+                        ppair = fusion.write_pair(tmp, 'c07_noise', src, ref, ps_, pr_, sv, rv, src_nodata=case['src_nodata'],
+                                                  ref_nodata=case['ref_nodata'], dtype='float64' if case['src_nodata'] == -9999.9 else 'float32')
+                        pres, _ = fusion.run_fuse_blocks(case['halvings'], src, ref, proc_ref_guess, ppair.src_path, ppair.ref_path,
+                                                         tmp / 'c07_noise_out.tif', model=case['model'], kernel_shape=case['kernel'],
+                                                         proc_crs=case['proc'], param=True, threads=case['threads'], model_config=mc)
+                        stable &= pres.corr_mask == b.corr_mask
+                        noise = np.maximum(noise, np.nan_to_num(np.abs(pres.corr.astype('float64') - b.corr), nan=0.0, posinf=0.0))
+                    dev = np.abs(res.corr.astype('float64') - ecorr)
+                    allow = budget * np.maximum(np.abs(ecorr), floor) + 20 * noise * abs(cc)
+                    over = (dev > allow) & m[None] & stable[None]
+                    run.hist['scale law: pixels over budget explained by last-bit noise of the input'] += int(((dev > budget * np.maximum(np.abs(ecorr), floor)) & m[None]).sum() - over.sum())
+                    if not over.any():
+                        rel = 0
+                    else:
+                        rel = float(np.nanmax(np.where(over, dev / np.maximum(np.abs(ecorr), floor), 0)))
+                if rel > budget or dr2 > 5e-2:
                     run.fail(case, f'{tag}: corrected differs by rel {rel:.2e}, R2 by {dr2:.2e} from the scale law',
                              signature=dict(kind='scale-law-tol', which=tag))
         run.sample(dict(case={k: case[k] for k in ('i', 'model', 'kernel', 'a', 'c', 'halvings', 'proc', 'thresh')},
